@@ -268,7 +268,7 @@ def run_lines(recs, ctx="solo0", modes="plain", opts="all", chunk=8, variant="pl
 BAD_RE = re.compile(r'^"BAD\|([^|]*)\|([^|]*)\|(-?\d+)\|([^|]*)\|([^|]*)"$')
 
 
-def monitor(events, module="EncTrace", shards=None, timeout=3000):
+def monitor(events, module="EncTrace", shards=None, timeout=3000, keys=("id", "prop", "status", "ast", "runs", "fault", "canon", "vars")):
     """TLC judges the events; returns (list of (id, reason, opt, ctx, mode), judged_count)"""
     shards = shards or NCPU
     work = os.path.join(BUILD, "work")
@@ -281,7 +281,7 @@ def monitor(events, module="EncTrace", shards=None, timeout=3000):
         tr = os.path.join(work, "trace-%d-%d.ndjson" % (os.getpid(), si))
         with open(tr, "w") as f:
             for e in part:
-                ev = {k: v for k, v in e.items() if k in ("id", "prop", "status", "ast", "runs", "fault", "canon", "vars")}
+                ev = {k: v for k, v in e.items() if k in keys}
                 f.write(json.dumps(ev) + "\n")
         tag = "mon-%d-%d" % (os.getpid(), si)
         meta = os.path.join(BUILD, "tlc", tag)
